@@ -50,6 +50,54 @@ theorem serveStreamable_ne_panic (c : SCfg) (reg : Registry) (st : Mcp.Session.S
   repeat' split
   all_goals simp_all [Reaction.http]
 
+/-! ### the Accept header parser never indexes out of range -/
+
+theorem splitOn_ne_nil (sep : Nat) (s : Text) : splitOn sep s ≠ [] := by
+  induction s with
+  | nil => simp [splitOn]
+  | cons c rest ih =>
+    unfold splitOn
+    split
+    · simp
+    · split <;> simp
+
+theorem mediaTypeOf_ok (item : Text) : ∃ mt, mediaTypeOf item = .ok mt := by
+  unfold mediaTypeOf goIndex
+  cases h : splitOn 59 (goTrimSpace item) with
+  | nil => exact absurd h (splitOn_ne_nil _ _)
+  | cons p ps => exact ⟨p, by simp⟩
+
+theorem parseAcceptItems_ok (items : List Text) : ∃ as, parseAcceptItems items = .ok as := by
+  induction items with
+  | nil => exact ⟨[], rfl⟩
+  | cons a rest ih =>
+    obtain ⟨mt, hm⟩ := mediaTypeOf_ok a
+    obtain ⟨ms, hr⟩ := ih
+    exact ⟨if mt.isEmpty then ms else mt :: ms, by simp [parseAcceptItems, hm, hr]⟩
+
+/-- `ParseAcceptHeader` returns for EVERY header value -/
+theorem parseAccept_ok (h : Text) : ∃ as, parseAccept h = .ok as := by
+  unfold parseAccept
+  split
+  · exact ⟨[], rfl⟩
+  · exact parseAcceptItems_ok _
+
+theorem chooseSSE_ok (postSSE : Bool) (h : Text) : ∃ b, chooseSSE postSSE h = .ok b := by
+  obtain ⟨as, ha⟩ := parseAccept_ok h
+  cases postSSE <;> simp [chooseSSE, ha]
+
+theorem serveWire_ne_panic (c : SCfg) (reg : Registry) (st : Mcp.Session.St) (w : HttpWire) :
+    (serveWire c reg st w).2 ≠ .panic := by
+  obtain ⟨as, ha⟩ := parseAccept_ok w.accept
+  simp only [serveWire, ha]
+  exact serveStreamable_ne_panic c reg st _
+
+/-- …and what it decides for well-formed headers: the answer does not depend on it (only its framing does) -/
+theorem serveWire_eq (c : SCfg) (reg : Registry) (st : Mcp.Session.St) (w : HttpWire) :
+    ∃ acc, serveWire c reg st w = serveStreamable c reg st ⟨w.verb, w.pathOk, w.ref, acc, w.body⟩ := by
+  obtain ⟨as, ha⟩ := parseAccept_ok w.accept
+  exact ⟨containsContentType as typeEventStream, by simp only [serveWire, ha]⟩
+
 theorem serveSSE_ne_panic (reg : Registry) (i : SseIn) : serveSSE reg i ≠ .panic := by
   unfold serveSSE serveSSEMessage
   have hd := dispatch_ne_panic reg
@@ -288,12 +336,13 @@ theorem wf_tool (t : ToolDesc) (s : Obj) (hs : t.inputSchema = some (.obj s)) (h
   by_cases hd : t.description.isEmpty = true <;> cases ho : t.outputSchema <;> cases ha : t.annotations <;>
     simp_all [reqIs, optIs, optField, lookup, isStr, isObj, wfInputSchema, isStrEq, encodeToolAnnotations]
 
-theorem wf_listTools (reg : Registry) (h : reg.Conforming) : wfResult t!"tools/list" (encodeListTools (reg.tools.map (·.desc))) = true := by
-  have hl : ((reg.tools.map (·.desc)).map encodeTool).all wfTool = true := by
+theorem wf_listTools (reg : Registry) (h : reg.Conforming) :
+    wfResult t!"tools/list" (encodeListTools (reg.toolFilter (reg.tools.map (·.desc)))) = true := by
+  have hl : ((reg.toolFilter (reg.tools.map (·.desc))).map encodeTool).all wfTool = true := by
     simp only [List.all_map, List.all_eq_true]
-    intro t ht
-    obtain ⟨s, hs, hty⟩ := h.schema t ht
-    exact wf_tool t.desc s hs hty
+    intro d hd
+    obtain ⟨s, hs, hty⟩ := h.listed d hd
+    exact wf_tool d s hs hty
   simp_all [encodeListTools, wfResult, optIs, listOf, lookup]
 
 theorem wf_promptArg (a : PromptArg) : wfPromptArgument (encodePromptArg a) = true := by
@@ -306,8 +355,8 @@ theorem wf_prompt (p : PromptEntry) : wfPrompt (encodePrompt p) = true := by
   by_cases hd : p.desc.isEmpty = true <;> by_cases ha : p.args.isEmpty = true <;>
     simp_all [encodePrompt, wfPrompt, reqIs, optIs, optField, lookup, isStr]
 
-theorem wf_listPrompts (reg : Registry) : wfResult t!"prompts/list" (.obj [(t!"prompts", .arr (reg.prompts.map encodePrompt))]) = true := by
-  have hl : (reg.prompts.map encodePrompt).all wfPrompt = true := by
+theorem wf_listPrompts (ps : List PromptEntry) : wfResult t!"prompts/list" (.obj [(t!"prompts", .arr (ps.map encodePrompt))]) = true := by
+  have hl : (ps.map encodePrompt).all wfPrompt = true := by
     simp only [List.all_map, List.all_eq_true]; intro p _; exact wf_prompt p
   simp_all [wfResult, optIs, listOf, lookup]
 
@@ -315,8 +364,8 @@ theorem wf_resource (r : ResEntry) : wfResource (encodeResource r) = true := by
   by_cases hd : r.desc.isEmpty = true <;> by_cases hm : r.mime.isEmpty = true <;> by_cases hs : r.size = 0 <;>
     simp_all [encodeResource, wfResource, reqIs, optIs, optField, lookup, isStr]
 
-theorem wf_listResources (reg : Registry) : wfResult t!"resources/list" (.obj [(t!"resources", .arr (reg.resources.map encodeResource))]) = true := by
-  have hl : (reg.resources.map encodeResource).all wfResource = true := by
+theorem wf_listResources (rs : List ResEntry) : wfResult t!"resources/list" (.obj [(t!"resources", .arr (rs.map encodeResource))]) = true := by
+  have hl : (rs.map encodeResource).all wfResource = true := by
     simp only [List.all_map, List.all_eq_true]; intro p _; exact wf_resource p
   simp_all [wfResult, optIs, listOf, lookup]
 
@@ -545,7 +594,7 @@ theorem dispatch_result_wf (reg : Registry) (hc : reg.Conforming) (req : Req) (r
   rw [if_neg h3] at hd
   by_cases h4 : req.method = t!"resources/list"
   · rw [if_pos h4] at hd; rw [h4]
-    simp [handleListResources] at hd; subst hd; exact wf_listResources reg
+    simp [handleListResources] at hd; subst hd; exact wf_listResources _
   rw [if_neg h4] at hd
   by_cases h5 : req.method = t!"resources/read"
   · rw [if_pos h5] at hd; rw [h5]
@@ -573,7 +622,7 @@ theorem dispatch_result_wf (reg : Registry) (hc : reg.Conforming) (req : Req) (r
   rw [if_neg h8] at hd
   by_cases h9 : req.method = t!"prompts/list"
   · rw [if_pos h9] at hd; rw [h9]
-    simp [handleListPrompts] at hd; subst hd; exact wf_listPrompts reg
+    simp [handleListPrompts] at hd; subst hd; exact wf_listPrompts _
   rw [if_neg h9] at hd
   by_cases h10 : req.method = t!"prompts/get"
   · rw [if_pos h10] at hd; rw [h10]
@@ -606,7 +655,7 @@ theorem dispatchStdio_result_wf (reg : Registry) (hc : reg.Conforming) (req : Re
   rw [if_neg h2] at hd
   by_cases h3 : req.method = t!"prompts/list"
   · rw [if_pos h3] at hd; rw [h3]
-    simp [handleListPrompts] at hd; subst hd; exact wf_listPrompts reg
+    simp [handleListPrompts] at hd; subst hd; exact wf_listPrompts _
   rw [if_neg h3] at hd
   by_cases h4 : req.method = t!"prompts/get"
   · rw [if_pos h4] at hd; rw [h4]
@@ -614,7 +663,7 @@ theorem dispatchStdio_result_wf (reg : Registry) (hc : reg.Conforming) (req : Re
   rw [if_neg h4] at hd
   by_cases h5 : req.method = t!"resources/list"
   · rw [if_pos h5] at hd; rw [h5]
-    simp [handleListResources] at hd; subst hd; exact wf_listResources reg
+    simp [handleListResources] at hd; subst hd; exact wf_listResources _
   rw [if_neg h5] at hd
   by_cases h6 : req.method = t!"resources/read"
   · rw [if_pos h6] at hd; rw [h6]
@@ -1056,7 +1105,9 @@ def demoPrompt : PromptEntry :=
 def demoResource : ResEntry :=
   ⟨t!"r", t!"verif://r", [], t!"text/plain", 0, fun _ => .contents (some [.text t!"verif://r" t!"text/plain" t!"hello"])⟩
 
-def demoReg : Registry := ⟨t!"srv", t!"1", [demoEcho, demoBoom, demoChan, demoNil, demoEmbedded], [demoPrompt], [demoResource]⟩
+def demoReg : Registry :=
+  { name := t!"srv", version := t!"1", tools := [demoEcho, demoBoom, demoChan, demoNil, demoEmbedded], prompts := [demoPrompt],
+    resources := [demoResource] }
 
 /-- a request envelope -/
 def demoEnv (id : Json) (method : Text) (params : Option Json) : Json :=
